@@ -88,7 +88,12 @@ package reporting
 //@   requires reporterOK(r) && violation != nil
 //@   assigns r.lineCache[all]
 //@   ensures reporterOK(r) && r.pass == old(r.pass) && r.ignoreSet == old(r.ignoreSet)
-//@   loop 3 invariant i >= 1
+// C17: the message starts with "error: [CODE] <message>" - the code shown is the code of the violation
+//@   let hdr = "error: " + "[" + violation.GetCode() + "] " + violation.GetMessage() + "\n"
+//@   ensures strings.HasPrefix(result, hdr)
+//@   loop 1 invariant strings.HasPrefix(builder.$content, hdr)
+//@   loop 2 invariant strings.HasPrefix(builder.$content, hdr)
+//@   loop 3 invariant i >= 1 && strings.HasPrefix(builder.$content, hdr)
 
 //@ func Reporter.ReportViolation
 //@   props C17 C08 C07 C10
@@ -97,6 +102,7 @@ package reporting
 //@   let hidden = supp(r.ignoreSet, violation.GetCode(), violation.GetPos())
 //@   ensures reporterOK(r) && r.pass == old(r.pass) && r.ignoreSet == old(r.ignoreSet)
 //@   ensures hidden ==> r.pass.$reports == old(r.pass.$reports)
+//@   ensures !hidden ==> strings.HasPrefix(r.pass.$reports[old(len(r.pass.$reports))].Message, "error: " + "[" + violation.GetCode() + "] " + violation.GetMessage() + "\n")
 //@   ensures !hidden ==> len(r.pass.$reports) == old(len(r.pass.$reports)) + 1 && r.pass.$reports[old(len(r.pass.$reports))].Pos == violation.GetPos() && (forall k int :: 0 <= k && k < old(len(r.pass.$reports)) ==> r.pass.$reports[k] == old(r.pass.$reports)[k])
 
 // number of violations among the first m that are not suppressed
